@@ -90,8 +90,13 @@ def insertSorted {α} (le : α → α → Bool) (x : α) : List α → List α
   | [] => [x]
   | y :: ys => if le x y then x :: y :: ys else y :: insertSorted le x ys
 
-/-- Stable sort (core merge sort), used for canonical output. -/
-def isort {α} (le : α → α → Bool) (l : List α) : List α := l.mergeSort le
+/-- Stable insertion sort (structural recursion: reduces in the kernel, so specifications that
+    sort can be evaluated by `decide`). -/
+def isort {α} (le : α → α → Bool) (l : List α) : List α :=
+  l.foldr (fun x acc => insertSorted le x acc) []
+
+/-- Stable merge sort (core), for canonicalising large outputs. -/
+def msort {α} (le : α → α → Bool) (l : List α) : List α := l.mergeSort le
 
 /-- no two equal adjacent elements (on a sorted list: no duplicates) -/
 def noAdjacentDup {α} [BEq α] : List α → Bool
